@@ -462,9 +462,10 @@ func (j *judge) judgeStep(i int, pre, post *Rec, before, after *DiskObs, eff Eff
 	}
 	completed := post != nil
 	bothFail := eff.TombFail && eff.StateFail
-	// durable = a record is on disk, or the refresh completed with at most one failed write
+	// recorded = a record is on disk, or the refresh completed with at most one
+	// failed write, or it was killed after one of its two replacements landed
 	for k := range j.pendingRev {
-		if diskRevoked(after, k) || (accRev[k] && completed && !bothFail) {
+		if diskRevoked(after, k) || (accRev[k] && completed && !bothFail) || (accRev[k] && !completed && (eff.TombLanded || eff.StateLanded)) {
 			j.L.Revoked(k, i)
 			delete(j.pendingRev, k)
 			j.count("revocations_accepted", 1)
